@@ -34,11 +34,14 @@ Prod == [
   add   |-> Bin(100, "Addition", "+"),           sub |-> Bin(100, "Subtraction", "-"),
   shl   |-> Bin(110, "BitwiseLeftShift", "<<"),  shr |-> Bin(110, "BitwiseRightShift", ">>"),
   band  |-> Bin(111, "BitwiseAnd", "&"),         bxor |-> Bin(112, "BitwiseXor", "^"),  bor |-> Bin(113, "BitwiseOr", "|"),
+  rng   |-> Bin(200, "Range", ".."),             rngs |-> Bin(200, "StartExclusiveRange", ">.."),
+  rnge  |-> Bin(200, "EndExclusiveRange", "..<"), rngx |-> Bin(200, "ExclusiveRange", ">..<"),
   pair  |-> [ar |-> 2, kind |-> "bin", p |-> 210, r2l |-> TRUE, d |-> "Pair", txt |-> "="],
   lst   |-> [ar |-> 2, kind |-> "list", p |-> 220, r2l |-> FALSE, d |-> "List", txt |-> ""],
+  cat   |-> Bin(240, "Concatenation", "<>"),
   lt    |-> Bin(300, "LessThan", "<"),           le  |-> Bin(300, "LessThanOrEqual", "<="),
   gt    |-> Bin(300, "GreaterThan", ">"),        ge  |-> Bin(300, "GreaterThanOrEqual", ">="),
-  eq    |-> Bin(400, "Equality", "=="),          ne  |-> Bin(400, "Inequality", "!="),
+  eq    |-> Bin(400, "Equality", "=="),          ne  |-> Bin(400, "Inequality", "!="),       tyeq |-> Bin(400, "TypeEqual", "#="),
   and   |-> Bin(410, "And", "&&"),               xor |-> Bin(420, "Xor", "^^"),         or  |-> Bin(430, "Or", "||"),
   app   |-> Bin(550, "Apply", "<~"),             appto |-> Bin(550, "ApplyTo", "~>"),
   cond  |-> Bin(700, "JumpIfTrue", "?>"),        condf |-> Bin(700, "JumpIfFalse", "!>"),
@@ -46,7 +49,7 @@ Prod == [
   com   |-> Bin(900, "CommaList", ","),
   seq   |-> [ar |-> 2, kind |-> "seq", p |-> 990, r2l |-> FALSE, d |-> "ExpressionSeparator", txt |-> ";"],
   \* ---- prefix operators
-  lefti |-> Pre(50, "AccessLeftInternal", "_."),
+  lefti |-> Pre(50, "AccessLeftInternal", "_."),  tyof |-> Pre(69, "TypeOf", "#"),
   neg   |-> Pre(75, "Opposite", "--"),           abs |-> Pre(75, "AbsoluteValue", "++"),   bnot |-> Pre(75, "BitwiseNot", "!"),
   not   |-> Pre(400, "Not", "!!"),               tis |-> Pre(400, "Tis", "??"),
   reap  |-> Pre(600, "Reapply", "^~"),
